@@ -299,18 +299,30 @@ def printDeprecated (depth : Nat) (d : Option Str) : Pr :=
     indent depth ++ lit "[" ++ gap0 ++ lit "deprecated" ++ gap0 ++ lit "(" ++ gap0 ++ lit "\"" ++ emit m ++ lit "\"" ++ gap0 ++ lit ")" ++ gap0 ++ lit "]"
       ++ choose eol gap1
 
-def printTrailing (t : Option Str) : Pr :=
+/-- The end of a field's line. `sameLineOk`: what follows (the next field without a doc comment, or the closing
+    brace) may stay on the same line, separated by blanks only — one of the permitted line-breaking styles
+    (`message P { 1 -> int32 x; 2 -> int32 y; }`). -/
+def printTrailing (t : Option Str) (sameLineOk : Bool) : Pr :=
   match t with
-  | none => eol
+  | none => if sameLineOk then choose eol (choose eol gap1) else eol
   | some c => gap0 ++ lit "//" ++ emit c ++ nl
 
-def printField (depth : Nat) (f : SrcField) (idx : Option Nat) : Pr :=
+def printField (depth : Nat) (f : SrcField) (idx : Option Nat) (sameLineOk : Bool := false) : Pr :=
   printDoc depth f.doc ++ printDeprecated depth f.deprecated ++
   (if f.deprecated.isSome then gap0 else indent depth) ++
   (match idx with
    | some i => lit (toString i) ++ gap0 ++ lit "->" ++ gap0
    | none => emit []) ++
-  printFT f.ft ++ gap1 ++ emit f.name ++ gap0 ++ lit ";" ++ printTrailing f.trailing
+  printFT f.ft ++ gap1 ++ emit f.name ++ gap0 ++ lit ";" ++ printTrailing f.trailing sameLineOk
+
+/-- fields of a body; a field may share its line with the next one when that one has no doc comment -/
+def printFields (depth : Nat) : List (Option Nat × SrcField) → Pr
+  | [] => emit []
+  | [(i, f)] => printField depth f i true
+  | (i, f) :: (j, g) :: rest => printField depth f i g.doc.isEmpty ++ printFields depth ((j, g) :: rest)
+
+def openBrace (firstPlain : Bool) : Pr :=
+  lit "{" ++ (if firstPlain then choose eol (choose eol gap0) else eol)
 
 def printOpCode (oc : Option Str) : Pr :=
   match oc with
@@ -318,10 +330,12 @@ def printOpCode (oc : Option Str) : Pr :=
   | some s => lit "[" ++ gap0 ++ lit "opcode" ++ gap0 ++ lit "(" ++ gap0 ++ emit s ++ gap0 ++ lit ")" ++ gap0 ++ lit "]" ++ choose eol gap1
 
 def printStructBody (depth : Nat) (fields : List SrcField) : Pr :=
-  lit "{" ++ eol ++ seq (fields.map fun f => printField (depth + 1) f none) ++ indent depth ++ lit "}"
+  openBrace ((fields.head?.map (·.doc.isEmpty)).getD true) ++
+  printFields (depth + 1) (fields.map fun f => (none, f)) ++ indent depth ++ lit "}"
 
 def printMessageBody (depth : Nat) (fields : List (Nat × SrcField)) : Pr :=
-  lit "{" ++ eol ++ seq (fields.map fun (i, f) => printField (depth + 1) f (some i)) ++ indent depth ++ lit "}"
+  openBrace ((fields.head?.map (·.2.doc.isEmpty)).getD true) ++
+  printFields (depth + 1) (fields.map fun (i, f) => (some i, f)) ++ indent depth ++ lit "}"
 
 def printStruct (depth : Nat) (s : SrcStruct) (top : Bool) : Pr :=
   (if top then printDoc depth s.doc ++ printOpCode s.opCode else emit []) ++
